@@ -663,12 +663,19 @@ def _ops_tokens(ops):
     return " ".join(toks)
 
 
+def _pristine(spec):
+    """the solver as constructed, never used: the model's coefficients are read off THIS object, so
+    a call that changes stored coefficients (get_f2x, generator, tsolve, finalize) cannot go unnoticed"""
+    _build(spec)
+    return _PROTO[json.dumps(spec, sort_keys=True)]
+
+
 def _prefix(run):
     return " ".join([_part_block(run.spec), _icenv_block(run.ts, run.spec)])
 
 
 def _hist_request(run, ops):
-    return " ".join(p for p in ["hist", _prefix(run), _solver_block(run.ts, run.spec, run.path, run.nt),
+    return " ".join(p for p in ["hist", _prefix(run), _solver_block(_pristine(run.spec), run.spec, run.path, run.nt),
                                 _opts_block(run.spec["ic"]), _hexs(run.f0), _ops_tokens(ops)] if p)
 
 
@@ -1230,7 +1237,7 @@ def _api_compare(ctx, spec, shape, calls, impl, model, flex_model, path):
 
 
 def _f2x_request(run, phi, velo):
-    return " ".join(p for p in ["f2x", _prefix(run), _solver_block(run.ts, run.spec, run.path, run.nt),
+    return " ".join(p for p in ["f2x", _prefix(run), _solver_block(_pristine(run.spec), run.spec, run.path, run.nt),
                                 "1" if velo else "0", str(phi.shape[0]), _hexs(phi)] if p)
 
 
@@ -1252,7 +1259,7 @@ def _api_stream(ctx, drv, specs):
         for r_ in range(per_spec):
             shape = API_SHAPES[(si * per_spec + r_) % len(API_SHAPES)]
             calls = _api_sequence(rng, spec, shape)
-            line = " ".join(p for p in ["api", _prefix(run0), _solver_block(run0.ts, spec, run0.path, 0),
+            line = " ".join(p for p in ["api", _prefix(run0), _solver_block(_pristine(run0.spec), spec, run0.path, 0),
                                         _eom_block(run0.ts, spec, run0.path), _api_tokens(calls)] if p)
             items.append((spec, shape, calls, phi, run0.path))
             reqs += [line] + f2
@@ -1611,6 +1618,8 @@ def _oracle_api(spec, calls, phi):
                 sc = max(float(np.abs(y).max()), 1e-300)
                 if x.shape != y.shape or np.any(np.abs(x - y) > 1e-12 * sc):
                     return ("finalize-not-the-latest-generator-alone-" + nm, q, np.asarray(x).tolist(), np.asarray(y).tolist())
+            if bool(c[1]) != bool(out[6]):
+                return ("finalize-get_force", q, "force attribute present: %s" % out[6], "only included if get_force is True (documented)")
             if bool(c[1]) != (out[5] is not None) or (out[5] is not None and out[5].tobytes() != fin.force.tobytes()):
                 return ("finalize-force", q, None if out[5] is None else out[5].tolist(), fin.force.tolist() if c[1] else None)
             hw = max([i for i, _ in g["ops"] if i >= 0] + [0])
